@@ -402,3 +402,29 @@ class Report:
             return 1
         print(f"OK property={self.pid} tier={self.tier} seed={self.seed} wall={ev['wall_s']}s")
         return 0
+
+
+def compiler_model_tie(rep, pid, tier, seed, have_input):
+    """runs runner/c01model.py (Lean compiler model vs the real xcmp, five stages byte for byte) for a check whose theorems
+    are about that model; a difference is reported as a broken correspondence of `pid`"""
+    import subprocess
+    outp = os.path.join(BUILD, f"{pid}-c01model.json")
+    corr = {}
+    try:
+        if os.path.exists(outp):
+            os.unlink(outp)
+        mr = subprocess.run([sys.executable, os.path.join(ROOT, "runner", "c01model.py"), "--tier", tier],
+                            capture_output=True, text=True, timeout=3000,
+                            env=dict(os.environ, VERIF_SEED=str(seed), C01MODEL_OUT=outp))
+        if os.path.exists(outp):
+            corr = json.load(open(outp))
+            for k in ("first_differences", "generator_features", "constructs", "v1_check_failures", "v2_check_failures"):
+                corr.pop(k, None)
+        corr["exit"] = mr.returncode
+        if mr.returncode != 0:
+            rep.violation("model-correspondence", {"broken": "Xcmp compiler model vs real xcmp differ (runner/c01model.py); the Lean theorems of "
+                                                   f"{pid} are about that model", "detail": (mr.stdout + mr.stderr)[-3000:]},
+                          no_input=not have_input)
+    except Exception as e:   # pragma: no cover
+        rep.violation("model-correspondence", {"broken": "c01model.py could not run", "detail": str(e)}, no_input=not have_input)
+    return corr
